@@ -13,9 +13,15 @@ import gen
 
 RULE = ("definitions with 1-2 sensors of 1-3 readings (pairwise distinct per-reading noise), with/without calibration, SPD dyadic priors, "
         "readings on / near / far from the prediction, innovation filtering disabled or enabled-but-accepting; distinct by (definition, "
-        "sensor, input); non-trivial = >=2 readings or rectangular H")
+        "sensor, input); non-trivial = >=2 readings or rectangular H; "
+        "fixed stream: readings that depend on the sign of a state (bearing atan2, sqrt(x^2), sqrt((y-w)^2), log(x^2)) at estimates in all four "
+        "quadrants, CSE on and off; "
+        "fixed stream: noise table listing the sensors (and readings) in another insertion order than the sensor table, sensors with the same "
+        "and with different reading names")
 NOTE = ["oracle: exact Fractions recomputation of S, K, x', P' from sympy h and dh/dx by name and the per-reading noise supplied by name",
-        "the Lean model checks its own Gauss-Jordan inverse (S*Sinv = 1) before using it"]
+        "the Lean model checks its own Gauss-Jordan inverse (S*Sinv = 1) before using it",
+        "sign-dependent readings: h and dh/dx are those of the expression as written, evaluated at the (negative) estimate by sympy",
+        "noise-table order: Q of a sensor is built from the entries supplied under that sensor's key, whatever the order of the table"]
 PARTIAL = ["binary64 rounding (1e-9 relative tolerance); numpy.linalg.inv is outside the model"]
 
 
@@ -35,14 +41,15 @@ def oracle_update(d, rd, noise, sub, P, x, z):
     return {"H": H, "hx": hx, "S": S, "K": K, "y": [r[0] for r in y], "x": xn, "P": Pn, "nis": nis, "Lr": Lr}
 
 
-def one_update_against_oracle(ctx, d, ekf, sensor, key, pt, z, reading_obj, tag):
-    """one sensor update of `ekf` at `pt` with reading values `z` (passed as `reading_obj`) against the exact Kalman update"""
+def one_update_against_oracle(ctx, d, ekf, sensor, key, pt, z, reading_obj, tag, P=None):
+    """one sensor update of `ekf` at `pt` with reading values `z` (passed as `reading_obj`) against the exact Kalman update
+    (`P`: a fixed prior covariance; drawn from ctx.rng when not given)"""
     Ls = sorted(s.name for s in d.state)
     rd = d.sensors[key]
     Lr = sorted(rd)
     m = len(Lr)
     sub = eh.subs_map(d, pt)
-    P = eh.spd(ctx.rng, len(Ls))
+    P = eh.spd(ctx.rng, len(Ls)) if P is None else P
     x = [pt["state"][n] for n in Ls]
     want = oracle_update(d, rd, sensor[key], sub, P, x, z)
     case = {"def": d.describe(), "sensor": key, "noise": {r: str(v) for r, v in sensor[key].items()}, "point": eh.point_json(pt),
@@ -150,6 +157,79 @@ def far_from_a_bell_shaped_reading(ctx):
     one_update_against_oracle(ctx, d, ekf, sensor, "mix", pt, z, ekf.make_reading("mix", **{r: float(v) for r, v in z.items()}), "far-from-bell")
 
 
+def readings_that_depend_on_a_sign(ctx):
+    """fixed stream: readings whose value and Jacobian depend on the SIGN of a state - a bearing atan2(py, px), a distance to a wall
+    sqrt(px^2), a distance to a calibrated fence sqrt((py - w)^2), a log-intensity log(px^2) - next to an ordinary range reading,
+    at estimates in all four quadrants (px < 0 and / or py < 0 included, never on an axis), with and without CSE, readings on and
+    off the prediction.  The oracle differentiates the expressions as written (d/dx sqrt(x^2) = x / sqrt(x^2) = -1 at x < 0)."""
+    import random
+    own = random.Random(50571)
+    px, py, w, dt = sympy.symbols("px py w dt")
+    sensors = {"radar": {"bearing": sympy.atan2(py, px), "range": sympy.sqrt(px ** 2 + py ** 2)},
+               "wall": {"distance": sympy.sqrt(px ** 2)},
+               "fence": {"gap": sympy.sqrt((py - w) ** 2), "along": px + w},
+               "glow": {"lg": sympy.log(px ** 2) / 2 + py}}
+    noise = {"radar": {"bearing": F(3, 8), "range": F(5, 8)}, "wall": {"distance": F(1, 2)},
+             "fence": {"gap": F(1, 4), "along": F(7, 8)}, "glow": {"lg": F(9, 8)}}
+    P = [[F(2), F(1, 2)], [F(1, 2), F(3, 2)]]
+    quadrants = [(F(3), F(2)), (F(-3), F(2)), (F(-5, 2), F(-3, 2)), (F(7, 4), F(-9, 4))]
+    for cse in (True, False):
+        d = gen.Definition(dt, [px, py], [], [w], {px: px + dt * py, py: py}, {k: dict(rd) for k, rd in sensors.items()})
+        d.transcend = True
+        cal = {"w": F(1, 2)}
+        try:
+            ekf = eh.compile_ekf(d, {}, noise, cal, own, cse=cse)
+        except Exception as e:
+            ctx.fail(f"compile-ekf-raises:{fk.exc_kind(e)}:sign-dependent", f"compile_ekf refuses a valid definition: {e!r}"[:300], {"def": d.describe()})
+            continue
+        for qi, (vx, vy) in enumerate(quadrants):
+            pt = {"dt": F(1, 8), "cal": cal, "control": {}, "state": {"px": vx, "py": vy}}
+            sub = eh.subs_map(d, pt)
+            for key in sensors:
+                Lr = sorted(d.sensors[key])
+                hx = eh.oracle_vals(d.sensors[key], Lr, sub)
+                for off in (F(0), F(3, 16)):
+                    z = {r: h + off * (j + 1) for j, (r, h) in enumerate(zip(Lr, hx))}
+                    ctx.count(f"sign_dependent:{'px<0' if vx < 0 else 'px>0'},{'py<0' if vy < 0 else 'py>0'}")
+                    one_update_against_oracle(ctx, d, ekf, noise, key, pt, z, ekf.make_reading(key, **{r: float(v) for r, v in z.items()}),
+                                              "sign-dependent-reading", P=P)
+
+
+def sensor_tables_in_different_orders(ctx):
+    """fixed stream: the noise table lists the sensors in another insertion order than the sensor table (rotated, reversed), (a) three
+    sensors that all have the same reading names with different noise values, (b) sensors with different reading names and sizes.
+    The noise of a reading is the one supplied under its sensor's KEY and its own name."""
+    import random
+    own = random.Random(50572)
+    e, n, b, dt = sympy.symbols("east north bias dt")
+    same = {"gps_a": {"e_m": e + b, "n_m": n}, "gps_b": {"e_m": e - n, "n_m": 2 * n + e}, "gps_c": {"e_m": 3 * e, "n_m": n - b}}
+    same_noise = {"gps_a": {"e_m": F(1, 8), "n_m": F(3, 8)}, "gps_b": {"e_m": F(5, 2), "n_m": F(7, 2)}, "gps_c": {"e_m": F(11), "n_m": F(13)}}
+    other = {"pos": {"e_m": e, "n_m": n + b}, "dist": {"d2": e * e + n * n}, "tri": {"t1": e + n, "t2": e - n, "t3": b + 2 * e}}
+    other_noise = {"pos": {"e_m": F(1, 4), "n_m": F(3, 4)}, "dist": {"d2": F(5)}, "tri": {"t1": F(9, 8), "t2": F(17, 8), "t3": F(33, 8)}}
+    P = [[F(2), F(1, 2), F(-1, 4)], [F(1, 2), F(3, 2), F(1, 4)], [F(-1, 4), F(1, 4), F(1)]]
+    pt = {"dt": F(1, 8), "cal": {}, "control": {}, "state": {"east": F(3, 2), "north": F(-5, 4), "bias": F(1, 2)}}
+    orders = {"rotated": lambda ks: ks[1:] + ks[:1], "reversed": lambda ks: ks[::-1]}
+    for label, sensors, noise in (("same-reading-names", same, same_noise), ("different-reading-names", other, other_noise)):
+        for oname, order in orders.items():
+            d = gen.Definition(dt, [e, n, b], [], [], {e: e + dt * n, n: n, b: b}, {k: dict(rd) for k, rd in sensors.items()})
+            # the very same entries, by key and by reading name, listed in another order (readings reversed as well)
+            table = {k: {r: float(noise[k][r]) for r in reversed(list(noise[k]))} for k in order(list(sensors))}
+            try:
+                ekf = eh.compile_ekf(d, {}, noise, {}, own, cse=(oname == "rotated"), maps={"sensor_noises": table})
+            except Exception as ex:
+                ctx.fail(f"compile-ekf-raises:{fk.exc_kind(ex)}:noise-table-order", f"compile_ekf refuses sensor noises listed in another order than "
+                         f"the sensors: {ex!r}"[:300], {"def": d.describe(), "noise_table_order": list(table)})
+                continue
+            sub = eh.subs_map(d, pt)
+            for key in sensors:
+                Lr = sorted(d.sensors[key])
+                hx = eh.oracle_vals(d.sensors[key], Lr, sub)
+                z = {r: h + F(j + 1, 4) for j, (r, h) in enumerate(zip(Lr, hx))}
+                ctx.count(f"noise_table_order:{label}:{oname}")
+                one_update_against_oracle(ctx, d, ekf, noise, key, pt, z, ekf.make_reading(key, **{r: float(v) for r, v in z.items()}),
+                                          f"noise-table-order:{label}", P=P)
+
+
 def run(ctx, focus="C05"):
     audit = core.lean_audit("C05")
     drv = core.Driver()
@@ -240,6 +320,10 @@ def run(ctx, focus="C05"):
     if focus == "C05":
         later_filters_and_own_readings(ctx)
         far_from_a_bell_shaped_reading(ctx)
+        tol = core.DEFAULT_TOL
+        readings_that_depend_on_a_sign(ctx)            # fixed inputs, private random streams: nothing is drawn from ctx.rng
+        sensor_tables_in_different_orders(ctx)
+        core.DEFAULT_TOL = tol                         # the comparisons below keep the tolerance they had before these two streams
     ans = drv.run()
     for idx, gx, gP, gS, gy, info in pending:
         a = ans[idx]
